@@ -223,4 +223,86 @@ theorem struct_key_accept {x : Ext} {kk : KeyNameKind} {nameOk : Str → Bool} {
     ⟨alg, name, ⟨rfl, all_ne_iff.1 halg.2, hne, hname name hna hn⟩, rfl⟩]
   rfl
 
+/-! ### Accepted ⇒ no cut with an over-large port -/
+
+/-- A server name with an over-large port ends in `:` and 1–5 digits whose value exceeds 65535. -/
+theorem portTooBig_suffix {host : Str → Bool} {t : Str} (h : portTooBig host t = true) :
+    ∃ A p, t = A ++ 58 :: p ∧ host A = true ∧ isPort p = true ∧ portValue p > 65535 := by
+  obtain ⟨A, p, rfl, hA, hq⟩ := cutAt_iff.1 h
+  simp only [Bool.and_eq_true, decide_eq_true_eq] at hq
+  exact ⟨A, p, rfl, hA, hq.1, hq.2⟩
+
+/-- Two cuts of the same string at a colon, the first with a colon-free front: the back of the
+first cut ends with the colon and the back of the second. -/
+theorem back_suffix_of_cut {W lp srv p : Str} (hW : 58 ∈ W) (hlp : 58 ∉ lp)
+    (e : W ++ 58 :: p = lp ++ 58 :: srv) : ∃ Y, srv = Y ++ 58 :: p := by
+  rcases List.append_eq_append_iff.1 e with ⟨a', h1, h2⟩ | ⟨c', h1, h2⟩
+  · cases a' with
+    | nil =>
+      simp only [List.append_nil] at h1
+      exact absurd (h1 ▸ hW) hlp
+    | cons a t =>
+      exfalso; apply hlp; rw [h1]; simp [hW]
+  · cases c' with
+    | nil =>
+      simp only [List.append_nil] at h1
+      exact absurd (h1 ▸ hW) hlp
+    | cons a t =>
+      simp only [List.cons_append, List.cons.injEq] at h2
+      exact ⟨t, h2.2⟩
+
+/-- An accepted `sigil localpart ":" server` has no cut whose server part carries an over-large
+port. -/
+theorem delimOk_not_bigPort {x : Ext} {sigil : Nat} {s lp srv : Str} {host : Str → Bool}
+    (h : DelimOk x sigil s lp srv) :
+    delimited sigil (fun _ => true) (portTooBig host) s = false := by
+  rw [Bool.eq_false_iff]
+  intro hb
+  obtain ⟨rfl, _, hlp, hsrv⟩ := h
+  obtain ⟨l', t, e, _, ht⟩ := delimited_iff.1 hb
+  obtain ⟨A, p, rfl, _, hport, hbig⟩ := portTooBig_suffix ht
+  have e2 : (l' ++ 58 :: A) ++ 58 :: p = lp ++ 58 :: srv := by
+    have := List.cons.inj e
+    simpa using this.2.symm
+  obtain ⟨Y, rfl⟩ := back_suffix_of_cut (by simp) hlp e2
+  have : portTooBig (fun _ => true) (Y ++ 58 :: p) = true :=
+    cutAt_iff.2 ⟨Y, p, rfl, rfl, by simp [hport]; exact hbig⟩
+  rw [serverOk_not_bigPort hsrv] at this
+  exact absurd this (by simp)
+
+theorem structHost_no_slash {x : Ext} {h : Str} (hx : Ipv6Sound x)
+    (hg : structHost x.isIpv6 h = true) : 47 ∉ h :=
+  hostOk_no_slash hx (hostOk_of_structHost hx hg)
+
+/-- An accepted MXC URI has no cut whose server part carries an over-large port. -/
+theorem mxcOk_not_bigPort {x : Ext} {s srv media : Str} (hx : Ipv6Sound x)
+    (h : MxcOk x s srv media) :
+    mxc (portTooBig (structHost x.isIpv6)) (fun _ => true) s = false := by
+  rw [Bool.eq_false_iff]
+  intro hb
+  obtain ⟨rfl, hns, _, hsrv⟩ := h
+  have ht : (mxcPrefix ++ (srv ++ 47 :: media)).take 6 = mxcPrefix := List.take_left' rfl
+  have hd : (mxcPrefix ++ (srv ++ 47 :: media)).drop 6 = srv ++ 47 :: media := List.drop_left' rfl
+  simp only [mxc, ht, hd, bs_mxc, beq_self_eq_true, Bool.true_and] at hb
+  obtain ⟨srv', m', e, hbig, _⟩ := cutAt_iff.1 hb
+  obtain ⟨A, p, rfl, hA, hport, hv⟩ := portTooBig_suffix hbig
+  -- `srv'` has no slash either, so both cuts are at the first slash
+  have hns' : 47 ∉ A ++ 58 :: p := by
+    intro hm
+    simp only [List.mem_append, List.mem_cons] at hm
+    rcases hm with hm | hm | hm
+    · exact structHost_no_slash hx hA hm
+    · omega
+    · simp only [isPort, Bool.and_eq_true, List.all_eq_true] at hport
+      have := hport.2 47 hm; simp [digit] at this
+  have f1 := find_append (c := 47) (post := m') hns'
+  have f2 := find_append (c := 47) (post := media) hns
+  rw [← e, f2] at f1
+  have hlen : srv.length = (A ++ 58 :: p).length := by simpa using f1
+  have := (List.append_inj e hlen).1
+  have hbp : portTooBig (fun _ => true) srv = true := by
+    rw [this]; exact cutAt_iff.2 ⟨A, p, rfl, rfl, by simp [hport]; exact hv⟩
+  rw [serverOk_not_bigPort hsrv] at hbp
+  exact absurd hbp (by simp)
+
 end Ruma.Ids
